@@ -13,7 +13,7 @@ pub struct Explore {
 }
 
 /// Violations of C01 in one pipeline outcome.
-pub fn judge(src: &Sources, out: &Outcome, cross: bool) -> Vec<Violation> {
+pub fn judge(src: &Sources, out: &Outcome, cross: bool, shapes: &[&str]) -> Vec<Violation> {
     match out {
         Outcome::Panic {
             stage,
@@ -25,7 +25,17 @@ pub fn judge(src: &Sources, out: &Outcome, cross: bool) -> Vec<Violation> {
             let sig = if cross {
                 format!("C01 panic in {stage}: {} [cross-module-application]", info.class())
             } else {
-                format!("C01 panic in {stage}: {}", info.signature())
+                // the two open findings about the recursion placeholder are keyed by the failing cast *and* their
+                // trigger shape: the same cast failing in a program without the shape is a different violation
+                let s = info.signature();
+                let tag = if s.starts_with("not a relation: Recursion") && shapes.contains(&"alias-on-cycle") {
+                    " [alias-on-cycle]"
+                } else if s.starts_with("not a uri: Recursion") && shapes.contains(&"uri-kinded-declaration-on-cycle") {
+                    " [uri-kinded-declaration-on-cycle]"
+                } else {
+                    ""
+                };
+                format!("C01 panic in {stage}: {s}{tag}")
             };
             vec![Violation::new(
                 "accepted program panicked in the back end",
@@ -56,7 +66,7 @@ pub fn judge(src: &Sources, out: &Outcome, cross: bool) -> Vec<Violation> {
     }
 }
 
-fn run_sources(src: &Sources, origin: &str, cross: bool, st: &mut Stats) -> Vec<Violation> {
+fn run_sources(src: &Sources, origin: &str, cross: bool, shapes: &[&str], st: &mut Stats) -> Vec<Violation> {
     let out = pipeline::run(src, None);
     let o = origin.split(':').next().unwrap_or(origin);
     st.inc(&format!("{o}:{}", out.class()));
@@ -69,7 +79,7 @@ fn run_sources(src: &Sources, origin: &str, cross: bool, st: &mut Stats) -> Vec<
             st.inc("accepted_unmutated");
         }
     }
-    judge(src, &out, cross)
+    judge(src, &out, cross, shapes)
 }
 
 impl Workload for Explore {
@@ -78,11 +88,11 @@ impl Workload for Explore {
     }
     fn case_json(&self, seed: u64, idx: u64) -> Value {
         let c = explore_case(seed, "explore", idx);
-        json!({"sources": c.sources.to_json(), "origin": c.origin, "cross_module_app": c.cross_module_app})
+        json!({"sources": c.sources.to_json(), "origin": c.origin, "cross_module_app": c.cross_module_app, "shapes": c.shapes})
     }
     fn run(&self, seed: u64, idx: u64, st: &mut Stats) -> Vec<Violation> {
         let c = explore_case(seed, "explore", idx);
-        run_sources(&c.sources, &c.origin, c.cross_module_app, st)
+        run_sources(&c.sources, &c.origin, c.cross_module_app, &c.shapes, st)
     }
     fn run_json(&self, case: &Value, st: &mut Stats) -> Vec<Violation> {
         let src = Sources::from_json(&case["sources"]);
@@ -90,6 +100,11 @@ impl Workload for Explore {
             &src,
             case["origin"].as_str().unwrap_or("replay"),
             case["cross_module_app"].as_bool().unwrap_or(false),
+            &super::explore::ALL_SHAPES
+                .iter()
+                .copied()
+                .filter(|t| case["shapes"].as_array().is_some_and(|a| a.iter().any(|x| x.as_str() == Some(*t))))
+                .collect::<Vec<_>>(),
             st,
         )
     }
@@ -171,7 +186,7 @@ impl Workload for Depth {
         let out = pipeline::run(&src, None);
         st.inc(&format!("depth:{}", out.class()));
         st.max("max_depth_accepted", if out.accepted() { DEPTHS[idx as usize % DEPTHS.len()] as u64 } else { 0 });
-        let mut v = judge(&src, &out, false);
+        let mut v = judge(&src, &out, false, &[]);
         if !out.accepted() {
             v.push(Violation::new(
                 "a nesting family program that the language accepts was rejected",
@@ -184,7 +199,7 @@ impl Workload for Depth {
         let src = Sources::from_json(&case["sources"]);
         let out = pipeline::run(&src, None);
         st.inc(&format!("depth:{}", out.class()));
-        judge(&src, &out, false)
+        judge(&src, &out, false, &[])
     }
     fn chunk(&self) -> u64 {
         4
